@@ -293,22 +293,10 @@ def bind_rule(cx, rid_bind="C08-BIND", rid_map="C08-MAP", only=None, floor=300):
     from .. import pe as pe_
     ir_fields = {cname: [f[0] for f in fl] for cname, fl in pe_.ir_classes()[1].items()}    # dataclass inheritance included
     psl = pm.func("_parse_simple_lines")
-    loop = find_dispatch_loop(pm, psl, "snippet")
-    local_funcs = {q.split(".")[-1] for q in pm.funcs if q.startswith("_parse_simple_lines.")}
-    local_defs = {q.split(".")[-1]: f for q, f in pm.funcs.items() if q.startswith("_parse_simple_lines.") and q.count(".") == 1}
-
-    # collect arms
-    arms = []
-    lb = loop.body
-    for i, st in enumerate(lb[:-1]):
-        if isinstance(st, ast.Assign) and isinstance(st.value, ast.Call) and isinstance(st.value.func, ast.Attribute) and st.value.func.attr == "match" and isinstance(st.value.func.value, ast.Name) and isinstance(lb[i + 1], ast.If):
-            rx = st.value.func.value.id
-            arm = lb[i + 1]
-            built = []
-            for c in ast.walk(arm):
-                if isinstance(c, ast.Call) and isinstance(c.func, ast.Attribute) and c.func.attr == "append" and norm(c.func.value) == "body" and c.args and isinstance(c.args[0], ast.Call) and isinstance(c.args[0].func, ast.Name):
-                    built.append(c.args[0].func.id)
-            arms.append((rx, arm, sorted(set(built))))
+    # the IR classes built from user calls are the entries of the HOST table (IR class -> host callable); every other IR class
+    # must be structural (control flow, variables) or injected by parse() - however the statement dispatcher is organised
+    STRUCTURAL = {"VarDecl", "VarAssign", "ExprStmt", "IfStatement", "WhileLoop", "ForRangeLoop", "TryStatement", "BreakStmt", "ReturnStmt", "Program", "ConditionalBranch", "CatchClause", "FunctionDef", "ButtonPoll", "LCDTick"}
+    arms = [("statement parser", psl, [c_]) for c_ in sorted(ir_fields) if c_ in HOST or c_ not in STRUCTURAL]
     cx.extra.setdefault("arms", len(arms))
 
     rule_resolver(cx, rid_bind.rsplit("-", 1)[0] + "-RESOLVER")
@@ -318,10 +306,6 @@ def bind_rule(cx, rid_bind="C08-BIND", rid_map="C08-MAP", only=None, floor=300):
     undecided = []
     pending, tasks = [], []
     for rx, arm, built in arms:
-        pat = lit.try_ev(pm.consts.get(rx), pm) if rx in pm.consts else None
-        if not isinstance(pat, lit.Regex):
-            continue
-        ngroups = re.compile(pat.pattern).groups
         for cls in built:
             if only is not None and not any(cls.startswith(p) for p in only):
                 continue
@@ -350,7 +334,6 @@ def bind_rule(cx, rid_bind="C08-BIND", rid_map="C08-MAP", only=None, floor=300):
                 if p[0] in HOST_ONLY or (cls, p[0]) in VALUE_LEVEL:
                     continue
                 rmap.check(p[0] in f2p.values(), f"{cls}/param[{p[0]}]-has-field", (hm, fn), f"parameter {p[0]} of {hcls or ''}.{hfn} is not carried by IR class {cls}", sample=f"{cls}.{[k for k, v in f2p.items() if v == p[0]][:1]} <- {hfn}({p[0]})")
-            args_group = f"m.group({ngroups})" if ngroups >= 1 and (ngroups >= 2 or cls in ("Sleep",)) else "<none>"
             if not params:
                 r.ok(f"{cls}: no parameters")
                 continue
